@@ -43,7 +43,7 @@ func init() {
 		return OpaqueV{Why: "emoji.Sprintf"}
 	})
 	// sleeping between RPC retries has no effect in the sequentialised model
-	Register("time.Sleep", func(it *Interp, fn *ssa.Function, a []Value) Value { return nil })
+	// time.Sleep: see models_clock.go (a no-op unless the harness opted into the symbolic clock)
 }
 
 // unmarshalByteCap: capacity of a []byte field after a generated (gogoproto) Unmarshal. The generated code does
